@@ -74,17 +74,24 @@ Qed.
 Definition earlier (gk : list Z) (vals : list V) (mask : option (list bool)) (k : Z) (i : nat) : list V :=
   sel_vals (rows_of (Z.to_nat k) (firstn i (mk_rows gk vals mask))).
 
-Theorem cumulative_row op skip_na gk vals ng mask i k v sel :
+Theorem cumulative_row_t temporal op skip_na gk vals ng mask i k v sel :
   nth_error (mk_rows gk vals mask) i = Some (k, (v, sel)) -> 0 <= k -> (Z.to_nat k < ng)%nat ->
-  let rf := reducer_of o (cum_reducer op skip_na) in
-  nth i (cumulative o op skip_na gk vals ng mask) (null o) =
+  let rf := reducer_of o (cum_reducer temporal op skip_na) in
+  nth i (cumulative_t o temporal op skip_na gk vals ng mask) (null o) =
     fst (series rf (earlier gk vals mask k i ++ (if sel then [v] else [])) (cum_init o op, 0)).
 Proof.
-  intros Hn Hk Hlt rf. unfold cumulative.
+  intros Hn Hk Hlt rf. unfold cumulative_t.
   rewrite (kscan_nth _ _ _ _ _ _ (null o) _ _ i k (v, sel) Hn Hk) by (rewrite repeat_length; exact Hlt).
   rewrite get_repeat by exact Hlt. rewrite sfold_cum_is_series. fold rf. unfold earlier.
   rewrite series_app. destruct sel; reflexivity.
 Qed.
+
+Theorem cumulative_row op skip_na gk vals ng mask i k v sel :
+  nth_error (mk_rows gk vals mask) i = Some (k, (v, sel)) -> 0 <= k -> (Z.to_nat k < ng)%nat ->
+  let rf := reducer_of o (cum_reducer false op skip_na) in
+  nth i (cumulative o op skip_na gk vals ng mask) (null o) =
+    fst (series rf (earlier gk vals mask k i ++ (if sel then [v] else [])) (cum_init o op, 0)).
+Proof. exact (cumulative_row_t false op skip_na gk vals ng mask i k v sel). Qed.
 
 Theorem cumsum_row gk vals ng mask i k v :
   nth_error (mk_rows gk vals mask) i = Some (k, (v, true)) -> 0 <= k -> (Z.to_nat k < ng)%nat ->
